@@ -9,7 +9,7 @@ C05 driver.  Case lines:
 REC   = NAME/TYPE/CLS/TTL/RDATA
 RDATA = a,HEX | aaaa,HEX | ns,NAME | cname,NAME | ptr,NAME | mx,PREF,NAME
       | soa,M,R,SERIAL,REFRESH,RETRY,EXPIRE,MINIMUM | srv,PRIO,WEIGHT,PORT,NAME | txt,HEX;HEX;…
-      | op,RAWHEX,KEYHEX,CANONHEX|!
+      | op,RAWHEX,KEYHEX,CANONHEX|!  | opl,RAWHEX,NAMESTART,NAMELEN,KEYHEX,CANONHEX|!
 -/
 import HickoryVerif.Drv.Proto
 import HickoryVerif.Model.Tbs
@@ -39,6 +39,10 @@ def parseRData (tok : String) : Option RData :=
     pure (.srv (← p.toNat?) (← w.toNat?) (← po.toNat?) (← parseName t))
   | ["txt", ss] => (parseStrings ss).map .txt
   | ["op", _raw, k, c] => do
+    let k ← parseHex k
+    if c == "!" then pure (.opaque k none) else pure (.opaque k (some (← parseHex c)))
+  | ["opl", _raw, _start, _len, k, c] => do
+    -- opaque type whose canonical form lower-cases an embedded name (region known to the harness only)
     let k ← parseHex k
     if c == "!" then pure (.opaque k none) else pure (.opaque k (some (← parseHex c)))
   | _ => none
